@@ -341,6 +341,8 @@ func safeDecode(op *model.Operation) (out iface.Operation, pan string) {
 	return operations.ModelToOperation(op), ""
 }
 
+var replayTmp string
+
 func main() {
 	in := flag.String("in", "", "file with CODEC lines")
 	rf := flag.String("replayfile", "", "re-run the grid point of a violation record")
@@ -365,8 +367,8 @@ func main() {
 			fmt.Fprintf(tmp, "CODEC %s\n", pb)
 		}
 		tmp.Close()
-		defer os.Remove(tmp.Name())
 		*in = tmp.Name()
+		replayTmp = tmp.Name()
 	}
 	if os.Getenv("VERIF_STDERR") == "" {
 		if dn, err := os.OpenFile("/dev/null", os.O_WRONLY, 0); err == nil {
@@ -377,6 +379,9 @@ func main() {
 	if err != nil {
 		fmt.Println(`{"error":"cannot open input"}`)
 		os.Exit(3)
+	}
+	if replayTmp != "" {
+		os.Remove(replayTmp) // stays readable through f; nothing is left behind whichever way the process ends
 	}
 	st, serr := stack.New()
 	if serr != nil {
